@@ -24,6 +24,7 @@ RULE_MODULES = {
     'RF7': 'rules.rf7_narrow',
     'OBJWR': 'rules.p_objwrite',
     'RF16': 'rules.rf16_delta',
+    'RF17': 'rules.rf17_copy',
 }
 
 
@@ -86,7 +87,7 @@ PROPERTIES = {
                        'frames, undefined arithmetic, driver-fault sequences',
     },
     'C06': {
-        'rules': ['DICT', 'RF7'],
+        'rules': ['DICT', 'RF7', 'RF17'],
         'technique': 'shape rules over the CFG (init walk, canonical binary-search form with unsigned masked comparisons), '
                      'decision tables of the typed accessors and integer type functions over flag/width classes, '
                      'conversion check on the buffer length path, guard folding of the domain length clip',
@@ -141,14 +142,14 @@ PROPERTIES = {
         'not_decided': 'interleaving semantics under preemption',
     },
     'C13': {
-        'rules': ['RF5', 'RF6', 'PDO', 'RF14', 'HB', 'NMT'],
+        'rules': ['RF5', 'RF6', 'PDO', 'RF14', 'HB', 'NMT', 'RF17'],
         'technique': 'decision-table extraction (CORPdoCheck, CORPdoRx, layout with dummy entries), must-facts (NMT gate, pending marker), registration-bit typestate, interval analysis of mapping-table subscripts, non-null dataflow on the synchronous-RPDO table',
         'explanation': 'CORPdoCheck matches only enabled RPDOs with an equal identifier and searches past disabled channels; CORPdoRx: application veto respected, asynchronous written at once, synchronous buffered; synchronous application only in OPERATIONAL and only for a pending frame; payload layout: producer CORPdoGetMap and consumer CORPdoWrite agree on dummy entries (little-endian field starts after the dummy width); SYNC registration typestate; RF6 on CO_RPDO.Map/Size and the SYNC tables; RF5 on Sync.RPdo[i]; element consistency.',
         'not_decided': 'field values written',
         'not_decided': 'values written by user-defined object types',
     },
     'C02': {
-        'rules': ['SDO2', 'SDO', 'RF14', 'RF7'],
+        'rules': ['SDO2', 'SDO', 'RF14', 'RF7', 'RF17'],
         'exhaustive': False,
         'technique': 'response-template folding (RF13) of the five download handlers over input classes, toggle / sequence '
                      'guard tables, constant folding of the per-server buffer offset, must-write vs upward-exposed-read '
@@ -161,7 +162,7 @@ PROPERTIES = {
         'not_decided': 'object == payload for every size and segmentation (data movement through counters)',
     },
     'C03': {
-        'rules': ['SDO2', 'RF14', 'RF7'],
+        'rules': ['SDO2', 'RF14', 'RF7', 'RF17'],
         'exhaustive': False,
         'technique': 'response-template folding (RF13) of the upload handlers, call-graph effect rule, must-write vs '
                      'upward-exposed-read sets across frames',
@@ -233,7 +234,7 @@ PROPERTIES = {
         'not_decided': 'interaction over write sequences beyond what the guards imply; activated PDO behaviour',
     },
     'C15': {
-        'rules': ['EMCY', 'OBJWR', 'RESET'],
+        'rules': ['EMCY', 'OBJWR', 'RESET', 'RF17'],
         'exhaustive': True,
         'technique': 'decision-table extraction over input classes, must-facts at the transmission site',
         'explanation': 'RF2: register update and EMCY frame only on a real transition (set/clear/reset, silent reset '
@@ -279,7 +280,7 @@ PROPERTIES = {
         'technique': 'timer-handle typestate dataflow with callee summaries and requirement propagation; decision-table extraction by partial evaluation of the handlers over input classes; must-facts at transmission sites',
     },
     'C19': {
-        'rules': ['RF3', 'CSDO', 'RF14', 'RF7'],
+        'rules': ['RF3', 'CSDO', 'RF14', 'RF7', 'RF17'],
         'explanation': 'Finalise-once shape (callback once, state IDLE, timeout action released: RF3 H1/H2/H4 State != BUSY => Tfer.Tmr released, H5); busy / invalid client refuses a request before any field is written; request frames (command byte, announced size); per-frame refresh and selection of a busy client with the matching identifier (for every configured client); response routing table per transfer type incl. abort for a foreign multiplexer; toggle discipline; download segment templates for every boundary of the remaining length (w = min(r,7), n = 7-w, c iff r <= 7); every store into the user buffer dominated by index < Tfer.Size (RF6e); timeout abort frame 0504 0000h; element consistency of csdo[n].',
         'not_decided': 'payload equality; timing of the timeout',
         'technique': 'timer-handle typestate dataflow with callee summaries and requirement propagation; decision-table extraction by partial evaluation of the handlers over input classes; must-facts at transmission sites; relational must-facts for the user-buffer bound',
